@@ -91,11 +91,13 @@ func badChecksum(m []byte) []byte {
 	return o
 }
 
-func badLength(m []byte) []byte {
-	// rewrite 9=<n> to 9=<n+1> and fix the checksum so that only the length is wrong
+func badLength(m []byte) []byte { return badLengthBy(m, 1) }
+
+// badLengthBy rewrites 9=<n> to 9=<n+d> and recomputes the checksum so that only the length is wrong.
+func badLengthBy(m []byte, d int) []byte {
 	fs := tokens(m)
 	n, _ := strconv.Atoi(fs[1].V)
-	return reframe(fs, strconv.Itoa(n+1))
+	return reframe(fs, strconv.Itoa(n+d))
 }
 
 // reframe re-emits the fields with the given BodyLength text and a matching checksum.
@@ -218,6 +220,7 @@ type world struct {
 	ctxDoneAt   time.Duration
 	ctxDone     bool
 	lastLogonCB *session.LogonSettings
+	onOut       func(m []byte) // called by the writer-loop stand-in for every message it takes off Outgoing()
 }
 
 func newWorld(c wcfg) *world {
@@ -283,6 +286,9 @@ func newWorld(c wcfg) *world {
 				return
 			}
 			w.outs = append(w.outs, outMsg{vsched.NowOffset(), append([]byte{}, m...)})
+			if w.onOut != nil {
+				w.onOut(m)
+			}
 		}
 	}()
 	go func() {
